@@ -40,6 +40,15 @@ impl PermCfg {
     #[verifier::external_body] pub fn rate_ext(&self) -> usize { unimplemented!() }
 }
 pub struct PoseidonPermExecutor { pub op_type: NpoTypeId, pub merkle_path: bool, pub new_start: bool, pub absorb_len: usize, pub config: PermCfg }
+impl PoseidonPermExecutor {
+    /// the base-field row itself / the extension and Merkle path of `execute` (opaque: they may fail for their own reasons)
+    #[verifier::external_body] pub fn execute_base_<F: Field>(&self, ctx: &ExecutionContext<F>) -> Result<(), CircuitError> { unimplemented!() }
+    #[verifier::external_body] pub fn execute_ext_<F: Field>(&self, ctx: &ExecutionContext<F>) -> Result<(), CircuitError> { unimplemented!() }
+}
+pub struct RecomposeExecutor { pub op_type: NpoTypeId, pub d: usize }
+impl RecomposeExecutor {
+    #[verifier::external_body] pub fn execute_row_<F: Field>(&self, ctx: &ExecutionContext<F>) -> Result<(), CircuitError> { unimplemented!() }
+}
 /// the preprocessed-column writer of one table row: the committed columns in order (by value)
 pub struct PrepWriter { pub cols: Ghost<Seq<Fe>> }
 pub uninterp spec fn wid_fe(w: WitnessId) -> Fe;
@@ -65,6 +74,8 @@ impl Fe {
 }
 /// every sibling limb of the row is witness-fed or chained: the row needs no private data (depends on the row's input slots, which resolve_private_data does not look at)
 pub uninterp spec fn no_free_sibling_limb(e: &PoseidonPermExecutor) -> bool;
+/// no sibling limb of the row is also fed from the witness (apply_witness_values runs after fill_sibling_data and silently overwrites a contradicting private sibling)
+pub uninterp spec fn no_sibling_limb_is_witness_fed(e: &PoseidonPermExecutor) -> bool;
 /// the number of sibling limbs fill_sibling_data places for this row (capacity_ext for arity 2; the free chunks for arity 4)
 pub uninterp spec fn sibling_limbs_consumed(e: &PoseidonPermExecutor) -> int;
 /// an input limb is read from the witness bus (CTL enabled): it names a witness
@@ -99,6 +110,7 @@ def build():
     # C19 "missing / wrong-length / wrongly typed private data is an error" (open findings; side observations of the round-13 C19 mutation agent, reproduced)
     r.ensures('private_data_of_another_type_is_an_error', 'ctx.private_data is Some && ctx.sibling() is None ==> ret is Err')
     r.ensures('H_a_merkle_row_without_private_data_has_no_free_sibling_limb', '(self.merkle_path && ret == Ok::<Option<&[F]>, CircuitError>(None)) ==> no_free_sibling_limb(self)')
+    r.ensures('H_a_row_with_private_siblings_has_no_witness_fed_sibling_limb', 'ret matches Ok(Some(s)) ==> no_sibling_limb_is_witness_fed(self)')
     r.ensures('H_the_attached_sibling_has_the_length_the_row_consumes', 'ret matches Ok(Some(s)) ==> s@.len() == sibling_limbs_consumed(self)')
     r.ensures('ok_returns_exactly_the_attached_sibling', '(ret matches Ok(Some(s)) ==> self.merkle_path && ctx.sibling() == Some(s@)) && (ret matches Ok(None) ==> ctx.sibling() is None)')
     # ---------------------------------------------------------------- preprocess_inputs[compact D=1 header]: the committed selector columns of a compact row (C06)
@@ -150,6 +162,30 @@ def build():
             n >= old(preprocessed).cols@.len() + 2 && c[n - 2] == fe_bool(self.new_start) && c[n - 1] == fe_bool(self.merkle_path) && c.take(old(preprocessed).cols@.len() as int) =~= old(preprocessed).cols@ })''')
     pf.ensures('compact_d1_sponge_row_tail', '''ret is Ok && self.config.dd == 1 && !self.merkle_path ==>
             final(preprocessed).cols@ =~= old(preprocessed).cols@ + seq![fe_bool(false), fe_bool(false), fe_bool(self.new_start), fe_bool(self.merkle_path)]''')
+    # ---------------------------------------------------------------- execute[base_dispatch] (R13 prefix) and RecomposeExecutor::execute[checks] (R13 prefix): rows that consume no private data report attached data (C19)
+    xb = u.extract(E, r'NonPrimitiveExecutor<F>\s*for PoseidonPermExecutor<V>', 'execute', 'PoseidonPermExecutor::execute[base_dispatch]')
+    mb_ = re.search(r'if self\.config\.d\(\) == 1 && !self\.merkle_path (\{)', xb.body)
+    if not mb_:
+        raise ExtractError('lost anchor in PoseidonPermExecutor::execute[base_dispatch]: the D=1 non-Merkle dispatch')
+    from vf.extract import match_brace
+    cb_ = match_brace(xb.body, mb_.start(1))
+    xb.body = '{\n' + xb.body[mb_.start():cb_ + 1] + '\n self.execute_ext_(ctx) }'
+    xb.rewrites.append(('R13', 'function body := the D=1 non-Merkle dispatch block; prefix (permutation lookup in the configuration) dropped, remainder = the extension / Merkle path (opaque callee execute_ext_)', ''))
+    xb.set_sig('R11', "fn execute<F: Field>(&self, ctx: &ExecutionContext<F>) -> Result<(), CircuitError>", sliced=True)
+    xb.rewrite_re('R11', r'self\.execute_base\(inputs, outputs, ctx, exec\.as_ref\(\)\)', 'self.execute_base_(ctx)', min_count=0)
+    xb.ensures('private_data_on_a_base_field_sponge_row_is_an_error', 'self.config.dd == 1 && !self.merkle_path && ctx.sibling() is Some ==> ret is Err')
+    rx = u.extract('circuit/src/ops/recompose.rs', r'NonPrimitiveExecutor<F>\s*for RecomposeExecutor<F>', 'execute', 'RecomposeExecutor::execute[checks]')
+    mr_ = re.search(r'let input_wids = &inputs\[0\];', rx.body)
+    if not mr_:
+        raise ExtractError('lost anchor in RecomposeExecutor::execute[checks]: `let input_wids = &inputs[0];`')
+    rx.body = rx.body[:mr_.start()] + '\n self.execute_row_(ctx) }'
+    rx.rewrites.append(('R13', 'function body truncated before `let input_wids = &inputs[0];`: the shape / private-data checks; remainder = reading the limbs, recomposing, recording the row (opaque callee execute_row_)', ''))
+    rx.set_sig('R11', "fn execute<F: Field>(&self, inputs: &Vec<Vec<WitnessId>>, outputs: &Vec<Vec<WitnessId>>, ctx: &ExecutionContext<F>) -> Result<(), CircuitError>", sliced=True)
+    rx.erase_struct_error('CircuitError::NonPrimitiveOpLayoutMismatch', 'CircuitError::Other')
+    rx.rewrite_re('R8', r'"[^"]*"\.to_string\(\)', 'errstr()', min_count=0)
+    rx.rewrite_re('R11', r'self\.op_type\.clone\(\)', 'self.op_type', min_count=0)
+    rx.rewrite_re('R6', r'ctx\.get_private_data\(\)\.is_ok\(\)', '(match ctx.get_private_data() { Ok(_) => true, Err(_) => false })', min_count=0)
+    rx.ensures('private_data_on_a_recompose_row_is_an_error', 'ctx.private_data is Some ==> ret is Err')
     from vf.unit import pull_in_helpers
     helpers = pull_in_helpers(u, pf, E, r'impl<V: PoseidonVariant> PoseidonPermExecutor<V>', {'preprocess_flags', 'resolve_private_data', 'preprocess_inputs'}, 'PoseidonPermExecutor')
     lc = u.extract(E, r'impl<V: PoseidonVariant> PoseidonPermExecutor<V>', 'limb_ctl_enabled', 'PoseidonPermExecutor::limb_ctl_enabled')
@@ -163,7 +199,10 @@ def build():
     u.emit(r)
     u.emit(ph)
     u.emit(pf)
+    u.emit(xb)
     for h_ in helpers:
         u.emit(h_)
+    u.text('}\nimpl RecomposeExecutor {')
+    u.emit(rx)
     u.text('}\n}')
     return u
